@@ -53,7 +53,7 @@ PROPS["C15"] = dict(driver="pagesim", budget=dict(quick=30, thorough=600), chunk
     technique="seeded operation sequences on a single TablePage in recovery-phase mode against a slot->bytes model, layout invariants on raw page bytes after every operation (simulation adds M-PAGE on page histories produced by interleaved transactions, rollbacks and redo/undo in the other checks)",
     assumptions=["the property has no schedule or fault in its statement: the dedicated driver is input generation; what the simulator adds is M-PAGE over the page histories of the crash/SQL simulations (counted there as mpage_pages_checked)",
                  "a shrinking in-place update outside rollback mode is refused by design (the caller relocates the row)"])
-PROPS["C16"] = dict(driver="locksim", budget=dict(quick=30, thorough=600), chunk=400, rule=UNIT_RULE,
+PROPS["C16"] = dict(driver="locksim+consim", budget=dict(quick=40, thorough=600), chunk=100, rule=UNIT_RULE + "; concurrent part: 2-6 transaction tasks issue the same requests under the seeded scheduler, compatibility invariant after every step",
     technique="seeded request sequences on the real LockManager/TransactionManager against an abstract lock table (sequential part; the concurrent part runs under the controlled scheduler)",
     assumptions=["LockUpgrade is only requested when the model says the caller holds the shared lock (the API's stated precondition)"])
 PROPS["C13"] = dict(driver="bpmsim", budget=dict(quick=30, thorough=600), chunk=200, rule=UNIT_RULE,
@@ -82,4 +82,9 @@ for _p in ("C04", "C05"):
         assumptions=["rows that newly match a predicate (phantoms) are exempt, as the property says",
                      "version order of a row = commit-return order of its committed writers (strict 2PL)",
                      "sub-statement level: a returned version must belong to a transaction whose commit had begun when the read returned and must not have been overwritten by a commit that returned before the read was invoked"])
+PROPS["C17"] = dict(driver="idxsim+consim", budget=dict(quick=60, thorough=1500), chunk=40, rule=UNIT_RULE + "; the concurrent part (consim 'index' workload) runs 2-6 tasks with disjoint key sets that interleave in key space under the seeded scheduler",
+    technique="seeded operation sequences through index.Index (skip list, unique skip list, B-tree, hash) on a small real buffer pool against a sorted multimap; concurrent part under the seeded scheduler with exact per-task expectations and the sound range-scan rule",
+    assumptions=["hash index: fixed documented capacity (<= 1200 entries generated) and no UpdateEntry (it panics 'not implemented'; not generated)",
+                 "varchar keys stay below 200 bytes",
+                 "concurrent part: tasks own disjoint key sets, so each completed operation has an exact expected answer without a linearizability search; range scans must return every never-touched entry exactly once, in order, and nothing that was never inserted"])
 
